@@ -188,6 +188,30 @@ theorem defragAll_never_corrupt {V : Type} (s : State V) (inv : Inv s) (ch : Lis
   rw [defragAll_eq]
   exact foldClass_ok_or_illegal _ _ (fun x hx => List.mem_range.1 hx) (relogClear_inv inv)
 
+/-- A started pass has no abort path, in the model AND in the source.  The model's pass has no step for "the OS
+refused a fresh page while records were being moved": from a state satisfying `Inv` it ends in a state
+satisfying `Inv` or is rejected, untouched, as `.illegalChoice`.  That mirrors the Go code only as long as the code
+does not survive such a refusal half-way: from the statement that marks a page `evacuating` on, the free slots of
+all selected pages are off every list, and only the end of the pass (pages unlinked and unmapped) repairs that.
+`defragNoEarlyExit` is the regenerated source fact (go/cmd/gen_c20/abort.go) that in every function of
+lib/others/memory that sets a header's `evacuating` flag no `return` follows that statement except the one that
+closes the function body — the code's only other way out is `panic`, which stops the process (fail-stop; the
+damaged state is never used).  An edit that turns the panic into a "graceful" early return makes the fact false
+and this theorem stops compiling; the harness stream go/cmd/c20/fault.go (RLIMIT_AS follows the process size
+during a pass, so mmap really fails) then looks for the concrete failing history. -/
+theorem defrag_pass_has_no_abort_path {V : Type} (s : State V) (inv : Inv s) (ch : List (Nat × List Nat)) :
+    defragNoEarlyExit = true ∧
+    ((∃ s', defragAll s ch = .ok s' ∧ Inv s') ∨ defragAll s ch = .error .illegalChoice) := by
+  refine ⟨by decide, ?_⟩
+  rcases defragAll_never_corrupt s inv ch with ⟨s', h⟩ | h
+  · exact .inl ⟨s', h, defragAll_inv inv h⟩
+  · exact .inr h
+
+-- non-vacuity: the hypothesis holds at the empty allocator (and at every reachable state: `alloc_inv`)
+example : defragNoEarlyExit = true ∧
+    ((∃ s', defragAll (init : State Nat) [] = .ok s' ∧ Inv s') ∨ defragAll (init : State Nat) [] = .error .illegalChoice) :=
+  defrag_pass_has_no_abort_path init init_inv []
+
 /-- An accepted choice always exists: from every state satisfying `Inv` there are evacuation orders (per class:
 the non-full pages sorted by `used`, cut where the selection loop stops) with which the whole pass succeeds;
 for a single class, some order satisfies `choiceOk`.  So `PassLegal` / `choiceOk` are satisfiable in every
